@@ -2,6 +2,7 @@ package props
 
 import (
 	"errors"
+	"os"
 	"fmt"
 	"io/fs"
 	"strings"
@@ -12,6 +13,7 @@ import (
 	"github.com/hack-pad/hackpadfs"
 	"github.com/hack-pad/hackpadfs/mem"
 	"github.com/hack-pad/hackpadfs/mount"
+	hpos "github.com/hack-pad/hackpadfs/os"
 )
 
 // C06, part "crossfault": a cross-mount rename whose copy fails part-way must leave BOTH file systems as they were
@@ -97,6 +99,50 @@ func (f *c06faultFile) Write(p []byte) (int, error) {
 		return 0, errC06Fault
 	}
 	return hackpadfs.WriteFile(f.File, p)
+}
+
+// c06oslink: an os.FS holding symbolic links is mounted at a; Stat, Lstat and LstatOrStat through the mount FS must give
+// what the same call gives on the mounted file system itself at the remainder path.
+func c06oslink(env *core.Env, res *core.CaseResult) {
+	d, err := os.MkdirTemp(env.Scratch, "c06os-")
+	if err != nil {
+		res.Inconclusive = err.Error()
+		return
+	}
+	defer os.RemoveAll(d)
+	_ = os.Chmod(d, 0o777)
+	osfs, err := hpos.NewFS().Sub(d[1:])
+	if err != nil {
+		res.Inconclusive = err.Error()
+		return
+	}
+	_ = hackpadfs.Mkdir(osfs, "dir", 0o755)
+	_ = hackpadfs.WriteFullFile(osfs, "dir/target", []byte("0123456789"), 0o640)
+	_ = hackpadfs.Symlink(osfs, "dir/target", "link")
+	_ = hackpadfs.Symlink(osfs, "dir", "dirlink")
+	_ = hackpadfs.Symlink(osfs, "nowhere", "dangling")
+	root, _ := mem.NewFS()
+	_ = hackpadfs.Mkdir(root, "a", 0o755)
+	m, err := mount.NewFS(root)
+	if err == nil {
+		err = m.AddMount("a", osfs)
+	}
+	if err != nil {
+		res.Violate("C06|oslink|setup", "cannot mount an os.FS: "+err.Error(), nil)
+		return
+	}
+	var h1, h2 fsx.Handles
+	for _, k := range []string{"Stat", "Lstat", "LstatOrStat", "ReadFile", "ReadDir"} {
+		for _, p := range []string{"link", "dirlink", "dangling", "dir/target", "dir", "dirlink/target", "missing"} {
+			via := fsx.Exec(m, fsx.Step{K: k, P: "a/" + p}, &h1, nil)
+			direct := fsx.Exec(osfs, fsx.Step{K: k, P: p}, &h2, nil)
+			res.Count("oslink_calls", 1)
+			if via.Panic != "" || via.Err != direct.Err || via.Data != direct.Data {
+				res.Violate(fmt.Sprintf("C06|%s|mounted-os,links|result:got=%s,want=%s", k, via.Outcome(), direct.Outcome()), fmt.Sprintf("%s(%q) through the mount FS returned %s; the same call on the file system mounted at a returns %s", k, "a/"+p, via, direct), nil)
+			}
+		}
+	}
+	res.Nontrivial = true
 }
 
 type c06faultCase struct {
